@@ -20,7 +20,10 @@ use crate::messages::{
 use crate::{utils, Error};
 use std::collections::VecDeque;
 use tokio::fs;
+#[cfg(not(rdest_verif))]
 use tokio::net::TcpStream;
+#[cfg(rdest_verif)]
+use crate::verif::net::TcpStream;
 use tokio::sync::{broadcast, mpsc, oneshot};
 use tokio::time;
 use tokio::time::{Duration, Instant, Interval};
@@ -43,6 +46,10 @@ pub struct PeerHandler {
     msg_buff: Vec<Frame>,
     peer_ch: mpsc::Sender<PeerCmd>,
     broad_ch: broadcast::Receiver<BroadCmd>,
+    #[cfg(rdest_verif)]
+    verif_trig: String,
+    #[cfg(rdest_verif)]
+    verif_called: bool,
 }
 
 struct PieceTx {
@@ -175,6 +182,10 @@ impl PeerHandler {
             msg_buff: vec![],
             peer_ch,
             broad_ch,
+            #[cfg(rdest_verif)]
+            verif_trig: "{\"k\":\"Start\"}".to_string(),
+            #[cfg(rdest_verif)]
+            verif_called: false,
         }
     }
 
@@ -185,6 +196,8 @@ impl PeerHandler {
                 self.run().await;
             }
             Err(_) => {
+            #[cfg(rdest_verif)]
+            self.verif_exit("Connection fail");
                 Self::kill_req(
                     &self.connection.addr,
                     &"Connection fail".to_string(),
@@ -206,6 +219,8 @@ impl PeerHandler {
             Err(e) => e.to_string(),
         };
 
+        #[cfg(rdest_verif)]
+        self.verif_exit(&reason);
         Self::kill_req(&self.connection.addr, &reason, &mut self.peer_ch).await;
     }
 
@@ -224,6 +239,8 @@ impl PeerHandler {
             self.init_handshake(peer_id).await?;
         }
 
+        #[cfg(rdest_verif)]
+        self.verif_end();
         let mut keep_alive_timer = self.start_keep_alive_timer();
         let mut sync_stats_timer = self.start_sync_stats_timer();
 
@@ -258,19 +275,27 @@ impl PeerHandler {
     }
 
     async fn timeout_keep_alive(&mut self) -> Result<(), Box<dyn std::error::Error>> {
+        #[cfg(rdest_verif)]
+        self.verif_begin("{\"k\":\"TickKA\"}".to_string());
         if self.peer_state.keep_alive == KEEP_ALIVE_LIMIT {
             return Err(Error::KeepAliveTimeout.into());
         }
         self.connection.send_msg(&KeepAlive::new()).await?;
         self.peer_state.keep_alive += 1;
+        #[cfg(rdest_verif)]
+        self.verif_end();
         Ok(())
     }
 
     async fn timeout_sync_stats(&mut self) -> Result<(), Box<dyn std::error::Error>> {
+        #[cfg(rdest_verif)]
+        self.verif_begin("{\"k\":\"TickStats\"}".to_string());
         if self.stats.downloaded.len() == MAX_STATS_QUEUE_SIZE {
             self.trigger_cmd_sync_stats().await?;
         }
         self.stats.shift();
+        #[cfg(rdest_verif)]
+        self.verif_end();
         Ok(())
     }
 
@@ -278,6 +303,8 @@ impl PeerHandler {
         &mut self,
         cmd: BroadCmd,
     ) -> Result<bool, Box<dyn std::error::Error>> {
+        #[cfg(rdest_verif)]
+        self.verif_begin(Self::verif_broad(&cmd, &self.connection.addr));
         match cmd {
             BroadCmd::SendHave { piece_index } => {
                 if let Some(piece_rx) = &self.piece_rx {
@@ -307,6 +334,8 @@ impl PeerHandler {
             }
         }
 
+        #[cfg(rdest_verif)]
+        self.verif_end();
         Ok(true)
     }
 
@@ -316,6 +345,8 @@ impl PeerHandler {
     ) -> Result<bool, Box<dyn std::error::Error>> {
         match opt_frame {
             Some(frame) => {
+                #[cfg(rdest_verif)]
+                self.verif_begin(Self::verif_frame(&frame));
                 self.peer_state.keep_alive = match frame {
                     Frame::KeepAlive(_) => self.peer_state.keep_alive,
                     _ => 0,
@@ -342,6 +373,8 @@ impl PeerHandler {
             None => return Err(Error::ConnectionClosed.into()),
         }
 
+        #[cfg(rdest_verif)]
+        self.verif_end();
         return Ok(true);
     }
 
@@ -490,6 +523,8 @@ impl PeerHandler {
             .await?;
 
         let (resp_tx, resp_rx) = oneshot::channel();
+        #[cfg(rdest_verif)]
+        self.verif_call("Init");
         self.peer_ch
             .send(PeerCmd::Init {
                 addr: self.connection.addr.clone(),
@@ -506,6 +541,8 @@ impl PeerHandler {
     }
 
     async fn trigger_cmd_recv_choke(&mut self) -> Result<(), Box<dyn std::error::Error>> {
+        #[cfg(rdest_verif)]
+        self.verif_call("RecvChoke");
         self.peer_ch
             .send(PeerCmd::RecvChoke {
                 addr: self.connection.addr.clone(),
@@ -517,6 +554,8 @@ impl PeerHandler {
 
     async fn trigger_cmd_recv_unchoke(&mut self) -> Result<(), Box<dyn std::error::Error>> {
         let (resp_tx, resp_rx) = oneshot::channel();
+        #[cfg(rdest_verif)]
+        self.verif_call("RecvUnchoke");
         self.peer_ch
             .send(PeerCmd::RecvUnchoke {
                 addr: self.connection.addr.clone(),
@@ -539,6 +578,8 @@ impl PeerHandler {
     }
 
     async fn trigger_cmd_recv_interested(&mut self) -> Result<(), Box<dyn std::error::Error>> {
+        #[cfg(rdest_verif)]
+        self.verif_call("RecvInterested");
         self.peer_ch
             .send(PeerCmd::RecvInterested {
                 addr: self.connection.addr.clone(),
@@ -552,6 +593,8 @@ impl PeerHandler {
         &mut self,
     ) -> Result<bool, Box<dyn std::error::Error>> {
         let (resp_tx, resp_rx) = oneshot::channel();
+        #[cfg(rdest_verif)]
+        self.verif_call("RecvNotInterested");
         self.peer_ch
             .send(PeerCmd::RecvNotInterested {
                 addr: self.connection.addr.clone(),
@@ -570,6 +613,8 @@ impl PeerHandler {
         have: &Have,
     ) -> Result<(), Box<dyn std::error::Error>> {
         let (resp_tx, resp_rx) = oneshot::channel();
+        #[cfg(rdest_verif)]
+        self.verif_call("RecvHave");
         self.peer_ch
             .send(PeerCmd::RecvHave {
                 addr: self.connection.addr.clone(),
@@ -595,6 +640,8 @@ impl PeerHandler {
         bitfield: Bitfield,
     ) -> Result<(), Box<dyn std::error::Error>> {
         let (resp_tx, resp_rx) = oneshot::channel();
+        #[cfg(rdest_verif)]
+        self.verif_call("RecvBitfield");
         self.peer_ch
             .send(PeerCmd::RecvBitfield {
                 addr: self.connection.addr.clone(),
@@ -628,6 +675,8 @@ impl PeerHandler {
         request: &Request,
     ) -> Result<(), Box<dyn std::error::Error>> {
         let (resp_tx, resp_rx) = oneshot::channel();
+        #[cfg(rdest_verif)]
+        self.verif_call("RecvRequest");
         self.peer_ch
             .send(PeerCmd::RecvRequest {
                 addr: self.connection.addr.clone(),
@@ -663,6 +712,8 @@ impl PeerHandler {
             },
         };
 
+        #[cfg(rdest_verif)]
+        self.verif_call(if done { "PieceDone" } else { "PieceCancel" });
         self.peer_ch.send(cmd).await?;
 
         match resp_rx.await? {
@@ -676,6 +727,8 @@ impl PeerHandler {
     }
 
     async fn trigger_cmd_sync_stats(&mut self) -> Result<(), Box<dyn std::error::Error>> {
+        #[cfg(rdest_verif)]
+        self.verif_call("SyncStats");
         self.peer_ch
             .send(PeerCmd::SyncStats {
                 addr: self.connection.addr.clone(),
@@ -780,5 +833,140 @@ impl PeerHandler {
             Ok(()) => Ok(()),
             Err(_) => Err(Error::FileCannotWrite),
         }
+    }
+}
+
+#[cfg(rdest_verif)]
+impl PeerHandler {
+    fn verif_frame(frame: &Frame) -> String {
+        use crate::serializer::Serializer;
+        let bytes = match frame {
+            Frame::Handshake(m) => m.data(),
+            Frame::KeepAlive(m) => m.data(),
+            Frame::Choke(m) => m.data(),
+            Frame::Unchoke(m) => m.data(),
+            Frame::Interested(m) => m.data(),
+            Frame::NotInterested(m) => m.data(),
+            Frame::Have(m) => m.data(),
+            Frame::Bitfield(m) => m.data(),
+            Frame::Request(m) => m.data(),
+            Frame::Piece(m) => m.data(),
+            Frame::Cancel(m) => m.data(),
+        };
+        crate::verif::trace::describe(bytes.as_slice())
+    }
+
+    fn verif_broad(cmd: &BroadCmd, addr: &String) -> String {
+        match cmd {
+            BroadCmd::SendHave { piece_index } => {
+                format!("{{\"k\":\"BroadHave\",\"a\":[{}]}}", piece_index)
+            }
+            BroadCmd::SendOwnState { am_choked_map } => format!(
+                "{{\"k\":\"BroadState\",\"me\":{}}}",
+                match am_choked_map.get(addr) {
+                    Some(v) => v.to_string(),
+                    None => "null".to_string(),
+                }
+            ),
+        }
+    }
+
+    fn verif_state(&mut self) -> String {
+        fn pairs(q: &VecDeque<(usize, usize)>) -> String {
+            let v: Vec<String> = q.iter().map(|(b, l)| format!("[{},{}]", b, l)).collect();
+            format!("[{}]", v.join(","))
+        }
+        let rx = match &self.piece_rx {
+            Some(rx) => format!(
+                "{{\"p\":{},\"len\":{},\"req\":{},\"left\":{}}}",
+                rx.piece_index,
+                rx.buff.len(),
+                pairs(&rx.requested),
+                pairs(&rx.left)
+            ),
+            None => "null".to_string(),
+        };
+        let tx = match &self.piece_tx {
+            Some(tx) => tx.piece_index.to_string(),
+            None => "null".to_string(),
+        };
+        let buf: Vec<String> = self
+            .msg_buff
+            .iter()
+            .map(|f| Self::verif_frame(f))
+            .collect();
+        let sent: Vec<String> = self.connection.verif_sent.drain(..).collect();
+        format!(
+            "\"st\":{{\"ch\":{},\"in\":{},\"ka\":{},\"pid\":{},\"rx\":{},\"tx\":{},\"buf\":[{}],\"ub\":{},\"blen\":{}}},\"sent\":[{}]",
+            self.peer_state.choked,
+            self.peer_state.interested,
+            self.peer_state.keep_alive,
+            self.peer_id.is_some(),
+            rx,
+            tx,
+            buf.join(","),
+            self.stats.unexpected_blocks,
+            self.connection.verif_buffer_len(),
+            sent.join(",")
+        )
+    }
+
+    fn verif_begin(&mut self, trig: String) {
+        self.verif_trig = trig;
+        self.verif_called = false;
+    }
+
+    fn verif_call(&mut self, cmd: &str) {
+        if !crate::verif::trace::on() {
+            return;
+        }
+        let st = self.verif_state();
+        crate::verif::trace::emit(
+            "h",
+            &format!(
+                "\"ev\":\"Call\",\"peer\":\"{}\",\"cmd\":\"{}\",\"trig\":{},\"called\":{},{}",
+                crate::verif::trace::esc(&self.connection.addr),
+                cmd,
+                self.verif_trig,
+                self.verif_called,
+                st
+            ),
+        );
+        self.verif_called = true;
+    }
+
+    fn verif_end(&mut self) {
+        if !crate::verif::trace::on() {
+            return;
+        }
+        let st = self.verif_state();
+        crate::verif::trace::emit(
+            "h",
+            &format!(
+                "\"ev\":\"End\",\"peer\":\"{}\",\"trig\":{},\"called\":{},{}",
+                crate::verif::trace::esc(&self.connection.addr),
+                self.verif_trig,
+                self.verif_called,
+                st
+            ),
+        );
+    }
+
+    fn verif_exit(&mut self, reason: &str) {
+        if !crate::verif::trace::on() {
+            return;
+        }
+        let st = self.verif_state();
+        crate::verif::trace::emit(
+            "h",
+            &format!(
+                "\"ev\":\"Exit\",\"peer\":\"{}\",\"reason\":\"{}\",\"trig\":{},\"called\":{},{}",
+                crate::verif::trace::esc(&self.connection.addr),
+                crate::verif::trace::esc(reason),
+                self.verif_trig,
+                self.verif_called,
+                st
+            ),
+        );
     }
 }
